@@ -336,6 +336,53 @@ def run(ctx):
                             out.append((n_, lab_))
         return out, leak
 
+    def named_test(pred, targets):
+        """The guard computed into a bool local (`bad = (cs > max + offset);` ... `if (bad) return false;`): from each such
+        assignment, can a target be reached when every later branch on that local is taken as if it held true (a path that
+        assigns the local again counts as reaching)?  Returns (number of such assignments, leak)."""
+        n_, leak = 0, False
+        for x in walk(f):
+            if not (x.get('kind') == 'BinaryOperator' and x.get('opcode') == '='):
+                continue
+            l_ = peel(kids(x)[0])
+            if l_ is None or l_.get('kind') != 'DeclRefExpr' or (l_.get('referencedDecl') or {}).get('kind') != 'VarDecl':
+                continue
+            d_ = u.by_id.get(l_['referencedDecl'].get('id'))
+            if d_ is None or (dtype(d_) or qtype(d_) or '').replace('const ', '').strip() != 'bool':
+                continue
+            if not any(pred(ft) for ft in F.cond_facts(kids(x)[1], True)):
+                continue
+            n_ += 1
+            bid = d_['id']
+            tg = set(t.id for t in targets)
+            seen = set()
+            stack = [m for s_ in g.nodes_for(x) for (m, _) in s_.succs]
+            while stack:
+                nd = stack.pop()
+                if nd.id in seen:
+                    continue
+                seen.add(nd.id)
+                if nd.id in tg:
+                    leak = True
+                    break
+                if nd.ast is not None and nd.kind in ('stmt', 'cond') and any(
+                        y.get('kind') == 'BinaryOperator' and y.get('opcode') == '=' and
+                        (peel(kids(y)[0]).get('referencedDecl') or {}).get('id') == bid for y in walk(nd.ast)):
+                    leak = True
+                    break
+                only = None
+                if nd.kind == 'cond' and nd.ast is not None:
+                    c_ = peel(nd.ast)
+                    if c_ is not None and c_.get('kind') == 'DeclRefExpr' and (c_.get('referencedDecl') or {}).get('id') == bid:
+                        only = 'T'
+                    elif c_ is not None and c_.get('kind') == 'UnaryOperator' and c_.get('opcode') == '!' and \
+                            (peel(kids(c_)[0]).get('referencedDecl') or {}).get('id') == bid:
+                        only = 'F'
+                for (m, lab) in nd.succs:
+                    if only is None or lab == only:
+                        stack.append(m)
+        return n_, leak
+
     def must_pass(targets, edges):
         return bool(edges) and not g.reachable_avoiding(targets, cut_edges=[(n.id, l) for (n, l) in edges])
 
@@ -380,7 +427,15 @@ def run(ctx):
     if not e_min:
         e_min, l2 = delegated(p_min)
         leak_ = leak_ or l2
-    ctx.check(cannot_follow(e_max, [final]) and cannot_follow(e_min, [final]) and not leak_, 'C09-exit',
+    ok_max = cannot_follow(e_max, [final])
+    ok_min = cannot_follow(e_min, [final])
+    if not e_max:
+        nn_, lk_ = named_test(p_max, [final])
+        ok_max = nn_ >= 1 and not lk_
+    if not e_min:
+        nn_, lk_ = named_test(p_min, [final])
+        ok_min = nn_ >= 1 and not lk_
+    ctx.check(ok_max and ok_min and not leak_, 'C09-exit',
               'offset adjustment beyond civil_second::max()/min() is rejected', final.ast,
               'a path on which cs -/+ offset would leave the civil range still reaches the accepting return',
               construct='exit:offsetguard', detail='%d/%d guard edges' % (len(e_max), len(e_min)))
@@ -432,7 +487,8 @@ def run(ctx):
     for x_ in last:
         vk_ = F.ident_key(call_args(x_)[1])
         got_.append(vk_)
-        if not re.match(r'^\w+#0x[0-9a-f]+\.lookup\(\w+#0x[0-9a-f]+\)\.pre$', vk_):
+        # (the zone may be named through a const object local: then its initialiser stands in its place)
+        if not re.match(r'^(\w+#0x[0-9a-f]+|\(.*\))\.lookup\(\w+#0x[0-9a-f]+\)\.pre$', vk_):
             okv = False
     ctx.check3(okv if last else None, 'C09-exit', 'the instant stored is the range-checked lookup(cs).pre itself', last[0] if last else f,
                'parse() stores %s, not the pre field of the lookup that the range checks examined: the result can lie beyond the '
